@@ -573,6 +573,43 @@ def merge_runner_sigs(part):
             v["sig"] = base + ":I+C"
 
 
+LONG_LENGTHS = [64, 100, 127, 128, 129, 200, 254, 255, 256, 257, 300, 511, 512, 513, 1000, 1023, 1024, 1025, 4096, 10000]
+
+
+def long_shard(rk):
+    """Long literals: every length of LONG_LENGTHS, three fill patterns, three quoting styles, alone and
+    inside a list / conditional; the value must be exactly the spelled text (length and content)."""
+    part = runner.Part()
+    n = 0
+    for length in LONG_LENGTHS:
+        for pname, unit in (("ascii", "abcdefghij"), ("nonascii", "é😀a"), ("digits-escapes", None)):
+            body = (unit * (length // len(unit) + 1)) if unit else ""
+            if pname == "digits-escapes":
+                k = length // 3
+                pad = length - 3 * k
+                cooked = ("a" + chr(92) + "n1") * k + "z" * pad   # source text: a \\ n 1  ->  value: a LF 1
+                value = ("a" + chr(10) + "1") * k + "z" * pad
+                texts = [("dq", '"' + cooked + '"'), ("sq", "'" + cooked + "'")]
+            else:
+                value = body[:length]
+                texts = [("dq", '"' + value + '"'), ("sq", "'" + value + "'"), ("raw", 'r"' + value + '"'), ("triple", '\"\"\"' + value + '\"\"\"')]
+            for style, lit_text in texts:
+                for ctxname, expr, pick in (("alone", lit_text, None), ("in-list", f"[{lit_text}, 1][0]", None), ("in-cond", f"true ? {lit_text} : \"\"", None), ("size", f"size({lit_text})", "size")):
+                    o = celrun.evaluate(rk, expr)
+                    part.case()
+                    n += 1
+                    part.outcome("long:" + outcome.label(o))
+                    want = ("int", len(value)) if pick == "size" else ("string", value)
+                    got = (o[1], o[2]) if o[0] == "V" else outcome.short(o)
+                    if got != want:
+                        shown = (got[0], len(got[1]) if isinstance(got[1], str) else got[1]) if isinstance(got, tuple) else got
+                        part.violation("wrong-value", f"string:long-literal:{style}:{ctxname}:{'len>=256' if length >= 255 else 'len<255'}:{rk}",
+                                       {"what": "long", "runner": rk, "text": expr if len(expr) < 600 else None, "length": length, "pattern": pname, "style": style, "context": ctxname},
+                                       f"runner {rk}: a {length}-character {pname} literal ({style}, {ctxname}) evaluates to {shown}, expected {want[0]} of length/value {len(value)}")
+    part.space(f"long-literals:{rk}", n, n, bound="lengths " + ",".join(map(str, LONG_LENGTHS)))
+    return part
+
+
 def run(ctx):
     litcodec.selftest()
     intarith.selftest()
@@ -604,6 +641,8 @@ def run(ctx):
     total = 2 * sum(card.values())
     if ctx.part.nontrivial + ctx.part.unspec != total:
         raise runner.HarnessError(f"{ctx.part.nontrivial + ctx.part.unspec} cases recorded, cardinalities sum to {total}")
+    for rk in ("I", "C"):
+        ctx.run_shards(long_shard, [rk])
     merge_runner_sigs(ctx.part)
     ctx.coverage_extra["cases"] = total
     ctx.coverage_extra["pinned_scenarios_validated"] = pinned
